@@ -12,14 +12,14 @@ use std::collections::BTreeMap;
 use std::time::Duration;
 
 pub fn meta(m: &mut PropMeta) {
-    m.rule = "a pool of 21 file texts spread over nested and sibling modules (cross-file type references, alias chains, inheritance, deprecated uses, doc links that resolve only when another file is present, a redefinition across files, a containment cycle across files, a dictionary key struct, and a definition named like a nested module of another file); EVERY subset of 2..4 files (quick) / 2..5 files (thorough) x ALL permutations of the subset, compiled in-process; every compilation is executed twice (fresh hash seeds) and must give identical diagnostics and ASTs; across the permutations of one subset: accepted-or-rejected is constant and, when accepted, every file's observed AST and the multiset of warnings (code, message, file, span) are constant. Process level: 3-file programs x every source/reference assignment x all 6 orders through the real binary with a capturing generator: exit status constant, warning multiset constant, and the decoded request content of every file constant (only the split and order change); every scenario repeated under hash seeds VERIF_HASH_SEED = 0..3 (quick) / 0..31 (thorough) via an LD_PRELOAD getrandom shim: stderr, stdout and the captured request must be byte-identical. non-trivial = the subset's files refer to each other; distinct = distinct (subset, order).";
+    m.rule = "a pool of 27 file texts spread over nested and sibling modules (cross-file type references, alias chains, inheritance, deprecated uses, doc links that resolve only when another file is present, a redefinition across files, a containment cycle across files, a dictionary key struct, and a definition named like a nested module of another file); EVERY subset of 2..4 files (quick) / 2..5 files (thorough) x ALL permutations of the subset, compiled in-process; every compilation is executed twice (fresh hash seeds) and must give identical diagnostics and ASTs; across the permutations of one subset: accepted-or-rejected is constant and, when accepted, every file's observed AST and the multiset of warnings (code, message, file, span) are constant. Process level: 3-file programs x every source/reference assignment x all 6 orders through the real binary with a capturing generator: exit status constant, warning multiset constant, and the decoded request content of every file constant (only the split and order change); every scenario repeated under hash seeds VERIF_HASH_SEED = 0..3 (quick) / 0..31 (thorough) via an LD_PRELOAD getrandom shim: stderr, stdout and the captured request must be byte-identical. non-trivial = the subset's files refer to each other; distinct = distinct (subset, order).";
     m.explanation = "exhaustive subsets x permutations x source/reference assignments; differential oracle (no expected value needed); controlled hash seeds";
-    m.quick_bound = "all subsets of 2..4 of 21 files x all permutations; 4 hash seeds";
-    m.thorough_bound = "all subsets of 2..5 of 21 files x all permutations; 32 hash seeds";
+    m.quick_bound = "all subsets of 2..4 of 27 files x all permutations; 4 hash seeds";
+    m.thorough_bound = "all subsets of 2..5 of 27 files x all permutations; 32 hash seeds";
     m.assumptions.push("the hash-seed space cannot be enumerated: seeds are a controlled, replayable sample; the permutation / assignment part is exhaustive");
 }
 
-const POOL: [&str; 21] = [
+const POOL: [&str; 27] = [
     "module A\nstruct S0 { x: int32 }\nenum E0 : uint8 { X }\n",
     "module A\nstruct S1 { s: S0, e: E0? }\n",
     "module A::B\nstruct T { s: S0, u: A::S1 }\n",
@@ -43,6 +43,15 @@ const POOL: [&str; 21] = [
     "module P\n#if FLAG\nstruct PX { x: int32 }\n#endif\nstruct PU { y: int32 }\n",
     "module P\nstruct PV { v: PX? }\n",
     "module Q\nstruct UL { l: A::B::Lone }\n",
+    // an inheritance loop of interfaces without operations, and an interface of another file that derives from it
+    "module Z\ninterface CA : CB {}\ninterface CB : CA {}\n",
+    "module Z\ninterface CX : CA {}\n",
+    // members (field, operation, enumerator) whose scoped names are those of definitions of other kinds (custom type,
+    // type alias, enum) in nested modules of other files
+    "module A\nstruct B2 { X: int32 }\ninterface B3 { Y() }\nenum B4 { W }\n",
+    "module A::B2\ncustom X\n",
+    "module A::B3\ntypealias Y = int32\n",
+    "module A::B4\nenum W { Q }\n",
 ];
 
 /// files whose presence together makes a definition collide with a nested module of another file
@@ -130,7 +139,7 @@ impl Permutations {
 }
 impl Family for Permutations {
     fn name(&self) -> String {
-        format!("permutations/{} subsets of the 21-file pool x all permutations, each compiled twice", self.subsets.len())
+        format!("permutations/{} subsets of the 27-file pool x all permutations, each compiled twice", self.subsets.len())
     }
     fn len(&self) -> u64 {
         self.subsets.len() as u64
@@ -148,6 +157,10 @@ impl Family for Permutations {
             "member-named-like-definition-in-nested-module-of-another-file"
         } else if has_module_definition_collision(subset) {
             "definition-named-like-nested-module-of-another-file"
+        } else if subset.contains(&23) && (subset.contains(&24) || subset.contains(&25) || subset.contains(&26)) {
+            "member-named-like-definition-in-nested-module-of-another-file"
+        } else if subset.contains(&21) && subset.contains(&22) {
+            "inheritance-loop-in-another-file"
         } else if subset.contains(&17) && (subset.contains(&18) || subset.contains(&19)) {
             "preprocessor-symbol-defined-in-another-file"
         } else {
